@@ -131,4 +131,18 @@ example : (split 4 demo 9).length = 15 ∧ ((split 4 demo 9).map (·.payload)).f
 example : (recvAll [] (split 4 demo 9)).1 = [] ∧
     (recvAll [] (split 4 demo 9)).2.getLast? = some (.deliver demo) := by decide
 
+/-- **A wake-up of the receiver only ever discards stale groups**: `markSweepFrags` keeps every
+group whose counter is above 1 — whatever its 16-bit identifier, 0 included — with the counter one
+lower and the fragments untouched, and removes exactly the groups whose counter runs out. (Every
+arriving fragment sets its group's counter back to `fragMaxMisses`, so a transfer that gets one
+fragment per wake-up is never swept.) -/
+theorem sweep_keeps_active (fs : Frag.Frags) (g : Nat) (cl : Frag.Cluster) (h : (g, cl) ∈ fs)
+    (hc : 2 ≤ cl.c) (hc' : cl.c < 256) : (g, { cl with c := cl.c - 1 }) ∈ Frag.sweep fs := by
+  unfold Frag.sweep
+  rw [List.mem_filter]
+  have hm : (cl.c + 255) % 256 = cl.c - 1 := by omega
+  refine ⟨List.mem_map.mpr ⟨(g, cl), h, ?_⟩, ?_⟩
+  · simp only [hm]
+  · exact decide_eq_true (by simp only [hm]; omega)
+
 end XMT.Props.C02
